@@ -54,8 +54,11 @@ def gen(rng, tier, index):
         yield {"kind": "strategy", "max_delay": rng.choice([1, 2, 3, 59, 60, 61, 64, 3600, rng.randint(1, 3600)]), "ops": ops}
         return
     script = []
+    long_outage = rng.random() < 0.15
     for _ in range(rng.randint(1, 8)):
-        if rng.random() < 0.45:
+        if long_outage:  # a long outage: the back-off must climb to its cap and stay there
+            script.append({"o": "fail", "d": rng.choice([0, 0, 0.5])})
+        elif rng.random() < 0.45:
             script.append({"o": "ok", "d": rng.choice(DGRID), "life": rng.choice(LIFE)})
         else:
             script.append({"o": "fail", "d": rng.choice(DGRID)})
@@ -63,14 +66,14 @@ def gen(rng, tier, index):
         "kind": "manager",
         "script": script,
         "cycle": False,
-        "tail": rng.choice([{"o": "ok", "d": 0, "life": None}, {"o": "fail", "d": 0}]),
-        "cfg": {"max_delay": rng.choice([1, 2, 3, 5, 8, 60, None]), "thr": rng.choice([0, 1, 5, 7, None]), "slp": rng.choice([0, 1, 5, 7, None])},
+        "tail": {"o": "fail", "d": 0} if long_outage else rng.choice([{"o": "ok", "d": 0, "life": None}, {"o": "fail", "d": 0}]),
+        "cfg": {"max_delay": rng.choice([1, 2, 3, 5, 8, 60, None, 100, 3600] if long_outage else [1, 2, 3, 5, 8, 60, None]), "thr": rng.choice([0, 1, 5, 7, None]), "slp": rng.choice([0, 1, 5, 7, None])},
         "stream": None,
         "close": None,
         "jump": None,
         "restart": None,
-        "horizon": 200.0,
-        "max_attempts": len(script) + 3,
+        "horizon": 20000.0 if long_outage else 200.0,
+        "max_attempts": len(script) + (rng.randint(4, 9) if long_outage else 3),
     }
 
 
